@@ -271,6 +271,13 @@ def _convert(
             output_type=output_chart_type,
             invalid_property_behaviors=invalid_property_behaviors,
         )
+        if isinstance(output_chart, SSCChart):
+            # Properties missing from the chart template were appended after
+            # its note data; SSC charts keep their note data last (that is
+            # how they are serialized), so restore that order
+            for notes_key in ("NOTES", "NOTES2"):
+                if notes_key in output_chart:
+                    output_chart.move_to_end(notes_key)
         output_simfile.charts.append(output_chart)
 
     return cast(_CONVERT_SIMFILE, output_simfile)
